@@ -303,7 +303,8 @@ theorem pivot_cell (t : Table) (x : List String) (y z : String) (agg : Agg) (zs 
   simp only [Table.pivot, hn, hx', or_self, Bool.false_eq_true, if_false, hk, hz]
   simp only [xyg, xg, ys] at hlab ⊢
   rw [hlab]
-  simp only [hnd, not_true_eq_false, if_false]
+  have hxn : x.Nodup := (List.nodup_append.1 hnd).1
+  simp only [hxn, hnd, not_true_eq_false, if_false]
   congr 3
   apply List.map_congr_left
   intro p _
@@ -552,8 +553,9 @@ theorem unpivot_pivot_multiset (t : Table) (x : List String) (y z : String) (zs 
       rw [this]
 
 /-- **literal form** of `unpivot_pivot_multiset` for tables whose x keys are canonical (`cmp`-equal x
-keys are equal, e.g. no `1` beside `1.0`) and whose y values all have a label (`yLabel`: str, or int
-through `str`): the rows of `unpivot(pivot(d))` with a non-`None` z are, as a multiset, exactly the
+keys are equal, e.g. no `1` beside `1.0`) and whose y values all have a label (`yLabel`) and are canonical as far as the
+label goes (`hyk`: no int beside the `cmp`-equal float, whose column keys `'1'` / `1.0` differ — the pivot table has ONE
+column for both, named after the group's representative): the rows of `unpivot(pivot(d))` with a non-`None` z are, as a multiset, exactly the
 `(x, label(y), z)` triples of the rows of `d` with a non-`None` z. -/
 theorem unpivot_pivot_multiset_canonical (t : Table) (x : List String) (y z : String) (zs : List Cell)
     (p u : VTable) (lab : Nat → String) (hn : t.nrows ≠ 0) (hx : x ≠ [])
@@ -565,6 +567,8 @@ theorem unpivot_pivot_multiset_canonical (t : Table) (x : List String) (y z : St
     (hcanon : ∀ i j, i < t.nrows → j < t.nrows →
       cmp (.tuple (xCells t x i)) (.tuple (xCells t x j)) = .eq → xCells t x i = xCells t x j)
     (hlab : ∀ i, i < t.nrows → yLabel (yCell t y i) = some (lab i))
+    (hyk : ∀ i j, i < t.nrows → j < t.nrows →
+      cmp (.tuple [yCell t y i]) (.tuple [yCell t y j]) = .eq → mixedNum (yCell t y i) (yCell t y j) = false)
     (hp : t.pivot x y z .last = some (.ok p)) (hu : p.unpivot x y z = .ok u) :
     ((uRows u x y z).filter fun r => !isNoneV r.2.2).Perm
       (((List.range t.nrows).filter fun i => zs.getD i .none != .none).map fun i =>
@@ -579,7 +583,7 @@ theorem unpivot_pivot_multiset_canonical (t : Table) (x : List String) (y z : St
     have hin : i < t.nrows := List.mem_range.1 (List.mem_filter.1 (hperm.mem_iff.1 hi)).1
     obtain ⟨l, hl, h1, h2⟩ := hxk i hin
     obtain ⟨l', hl', h3, h4⟩ := hlabel i hin
-    rw [h1, ← hcanon i l hin hl h2, yLabel_congr h4 (hlab i hin) h3]
+    rw [h1, ← hcanon i l hin hl h2, yLabel_congr h4 (hyk i l' hin hl' h4) (hlab i hin) h3]
   rw [this]
   exact hperm.map _
 
@@ -605,7 +609,7 @@ theorem unpivot_pivot_defined_str (t : Table) (x : List String) (y z : String) (
       yLabel (tupleGet 0 gy.1) = some (labOf gy) := by
     intro gy hgy
     obtain ⟨s, hs, _⟩ := hkey gy hgy
-    simp [labOf, hs, tupleGet, yLabel]
+    simp [labOf, hs, tupleGet, yLabel, keyName]
   have hnd : (x ++ (listbyG (((listbyG (xyKeys t.nrows (xCells t x) (yCell t y))).map
       fun g => tupleGet x.length g.1).map fun v => Val.tuple [v])).map labOf).Nodup := by
     rw [List.nodup_append]
@@ -615,14 +619,14 @@ theorem unpivot_pivot_defined_str (t : Table) (x : List String) (y z : String) (
       intro a b ha hb hlt heq
       obtain ⟨sa, hsa, _⟩ := hkey a ha
       obtain ⟨sb, hsb, _⟩ := hkey b hb
-      have : sa = sb := by simpa [labOf, hsa, hsb, tupleGet, yLabel] using heq
+      have : sa = sb := by simpa [labOf, hsa, hsb, tupleGet, yLabel, keyName] using heq
       rw [hsa, hsb, this, cmp_self] at hlt
       cases hlt
     · intro a ha b hb hab
       obtain ⟨gy, hgy, rfl⟩ := List.mem_map.1 hb
       obtain ⟨s, hs, hsx⟩ := hkey gy hgy
       apply hsx
-      have : labOf gy = s := by simp [labOf, hs, tupleGet, yLabel]
+      have : labOf gy = s := by simp [labOf, hs, tupleGet, yLabel, keyName]
       rw [← this, ← hab]; exact ha
   have hp := pivot_cell t x y z agg zs _ hn hx hcols hz (optMapM_some_of_forall hlabs) hnd
   obtain ⟨_, hnd', hpe⟩ := pivot_ok_shape t x y z agg zs _ hn hx hcols hz hp
@@ -631,6 +635,171 @@ theorem unpivot_pivot_defined_str (t : Table) (x : List String) (y z : String) (
     hx hnd' hyz
   rw [← hpe] at hu
   exact ⟨_, u, hp, hu⟩
+
+/-! ### what `unpivot ∘ pivot` needs of the column labels, as explicit hypotheses -/
+
+/-- the rendering of y values as column keys (`yLabel`: ints through `str`, every other scalar is its own key) is INJECTIVE
+on the y values present: two rows with the same column key have `cmp`-equal y values.  False for `1` beside `'1'`. -/
+def LabelsInjective (t : Table) (y : String) : Prop :=
+  ∀ i j, i < t.nrows → j < t.nrows → yLabel (yCell t y i) = yLabel (yCell t y j) →
+    cmp (.tuple [yCell t y i]) (.tuple [yCell t y j]) = .eq
+
+/-- `pivot` and then `unpivot` are DEFINED (return tables, no ValueError, inside the modelled domain) for every aggregator
+exactly under the label hypotheses spelled out: every y value present has a column key (`hlab`: None / int / float / string /
+datetime), the rendering is injective on the y values present (`hinj`), and no column key is an `x` column name (`hxl`).
+With `unpivot_pivot_multiset` (whose hypothesis `pivot … = some (.ok p)` this discharges) the inverse law holds for all such
+tables; `unpivot_pivot_label_collision` shows on `1` beside `'1'` that `hinj` cannot be dropped (ValueError). -/
+theorem unpivot_pivot_defined (t : Table) (x : List String) (y z : String) (agg : Agg)
+    (zs : List Cell) (hn : t.nrows ≠ 0) (hx : x ≠ [])
+    (hcols : ∀ k ∈ x ++ [y], (t.col? k).isSome = true) (hz : t.col? z = some zs)
+    (hyz : (x ++ [y, z]).Nodup)
+    (hlab : ∀ i, i < t.nrows → (yLabel (yCell t y i)).isSome = true)
+    (hinj : LabelsInjective t y)
+    (hxl : ∀ i, i < t.nrows → ∀ s, yLabel (yCell t y i) = some s → s ∉ x) :
+    ∃ p u, t.pivot x y z agg = some (.ok p) ∧ p.unpivot x y z = .ok u := by
+  have hxp : ∀ i, (xCells t x i).length = x.length := by intro i; simp [xCells]
+  have hkey : ∀ gy ∈ listbyG (((listbyG (xyKeys t.nrows (xCells t x) (yCell t y))).map
+      fun g => tupleGet x.length g.1).map fun v => Val.tuple [v]),
+      ∃ l, l < t.nrows ∧ gy.1 = .tuple [yCell t y l] := by
+    intro gy hgy
+    exact ys_key_rep (xCells t x) (yCell t y) hn hxp gy hgy
+  have hlabs : ∀ gy ∈ listbyG (((listbyG (xyKeys t.nrows (xCells t x) (yCell t y))).map
+      fun g => tupleGet x.length g.1).map fun v => Val.tuple [v]),
+      yLabel (tupleGet 0 gy.1) = some (labOf gy) := by
+    intro gy hgy
+    obtain ⟨l, hl, hs⟩ := hkey gy hgy
+    have := hlab l hl
+    cases hy : yLabel (yCell t y l) with
+    | none => simp [hy] at this
+    | some s => simp [labOf, hs, tupleGet, hy]
+  have hnd : (x ++ (listbyG (((listbyG (xyKeys t.nrows (xCells t x) (yCell t y))).map
+      fun g => tupleGet x.length g.1).map fun v => Val.tuple [v])).map labOf).Nodup := by
+    rw [List.nodup_append]
+    refine ⟨(List.nodup_append.1 hyz).1, ?_, ?_⟩
+    · rw [List.Nodup, List.pairwise_map]
+      apply (listbyG_sorted _).imp_of_mem
+      intro a b ha hb hlt heq
+      obtain ⟨la, hla, hsa⟩ := hkey a ha
+      obtain ⟨lb, hlb, hsb⟩ := hkey b hb
+      have h1 := hlabs a ha
+      have h2 := hlabs b hb
+      rw [hsa] at h1; rw [hsb] at h2
+      simp only [tupleGet, List.getD_cons_zero] at h1 h2
+      have := hinj la lb hla hlb (by rw [h1, h2, heq])
+      rw [hsa, hsb, this] at hlt
+      cases hlt
+    · intro a ha b hb hab
+      obtain ⟨gy, hgy, rfl⟩ := List.mem_map.1 hb
+      obtain ⟨l, hl, hs⟩ := hkey gy hgy
+      have h1 := hlabs gy hgy
+      rw [hs] at h1
+      simp only [tupleGet, List.getD_cons_zero] at h1
+      exact hxl l hl _ h1 (hab ▸ ha)
+  have hp := pivot_cell t x y z agg zs _ hn hx hcols hz (optMapM_some_of_forall hlabs) hnd
+  obtain ⟨_, hnd', hpe⟩ := pivot_ok_shape t x y z agg zs _ hn hx hcols hz hp
+  obtain ⟨u, hu, _⟩ := unpivot_pivotTable x y z _ _ labOf
+    (fun gx gy => pivotCell (listbyG (xyKeys t.nrows (xCells t x) (yCell t y))) x.length zs agg gx.2 gy.1)
+    hx hnd' hyz
+  rw [← hpe] at hu
+  exact ⟨_, u, hp, hu⟩
+
+/-- the label hypothesis holds whenever the column keys of the cells present determine the cells (`keyName` injective on them) -/
+theorem labelsInjective_of_keyName (t : Table) (y : String)
+    (h : ∀ i j, i < t.nrows → j < t.nrows → keyName (t.jcellAt y i) = keyName (t.jcellAt y j) → t.jcellAt y i = t.jcellAt y j) :
+    LabelsInjective t y := by
+  intro i j hi hj he
+  simp only [yCell, yLabel] at he
+  simp only [yCell]
+  rw [h i j hi hj he]
+  exact cmp_self _
+
+/-- … for STRING y values (a string is its own column key) -/
+theorem labelsInjective_str (t : Table) (y : String) (hstr : ∀ i, i < t.nrows → ∃ s, t.jcellAt y i = .str s) :
+    LabelsInjective t y := by
+  apply labelsInjective_of_keyName
+  intro i j hi hj he
+  obtain ⟨a, ha⟩ := hstr i hi
+  obtain ⟨b, hb⟩ := hstr j hj
+  rw [ha, hb] at he ⊢
+  simpa [keyName] using he
+
+/-- … for INT y values that print differently (`str(n)` is the column key) -/
+theorem labelsInjective_int (t : Table) (y : String) (hint : ∀ i, i < t.nrows → ∃ n, t.jcellAt y i = .int n)
+    (hprint : ∀ n m : Int, (∃ i, i < t.nrows ∧ t.jcellAt y i = .int n) → (∃ j, j < t.nrows ∧ t.jcellAt y j = .int m) →
+      toString n = toString m → n = m) :
+    LabelsInjective t y := by
+  apply labelsInjective_of_keyName
+  intro i j hi hj he
+  obtain ⟨a, ha⟩ := hint i hi
+  obtain ⟨b, hb⟩ := hint j hj
+  rw [ha, hb] at he ⊢
+  simp only [keyName, Option.some.injEq] at he
+  rw [hprint a b ⟨i, hi, ha⟩ ⟨j, hj, hb⟩ he]
+
+/-- … for FLOAT y values that print differently (the float itself is the column key; the model names it U+0000 + its wire
+atom `F:<quarters>`) -/
+theorem labelsInjective_flt (t : Table) (y : String) (hflt : ∀ i, i < t.nrows → ∃ q, t.jcellAt y i = .flt q)
+    (hprint : ∀ q r : Int, (∃ i, i < t.nrows ∧ t.jcellAt y i = .flt q) → (∃ j, j < t.nrows ∧ t.jcellAt y j = .flt r) →
+      (Cell.flt q).render = (Cell.flt r).render → q = r) :
+    LabelsInjective t y := by
+  apply labelsInjective_of_keyName
+  intro i j hi hj he
+  obtain ⟨a, ha⟩ := hflt i hi
+  obtain ⟨b, hb⟩ := hflt j hj
+  rw [ha, hb] at he ⊢
+  simp only [keyName, Option.some.injEq, String.append_right_inj] at he
+  rw [hprint a b ⟨i, hi, ha⟩ ⟨j, hj, hb⟩ he]
+
+/-- non-vacuity of `unpivot_pivot_defined`: y values `1.5`, `None`, `'1.5'`, a datetime and `2` (five different column keys) -/
+def exMixed : Table := [("a", [.int 0, .int 0, .int 1, .int 1, .int 0]),
+  ("y", [.flt 6, .none, .str "1.5", .dt 63713433600000000, .int 2]), ("z", [.int 1, .int 2, .int 3, .int 4, .int 5])]
+
+example : (∀ i, i < exMixed.nrows → (yLabel (yCell exMixed "y" i)).isSome = true) ∧ LabelsInjective exMixed "y" ∧
+    (∀ i, i < exMixed.nrows → ∀ s, yLabel (yCell exMixed "y" i) = some s → s ∉ ["a"]) := by
+  refine ⟨by decide, ?_, ?_⟩
+  · intro i j hi hj
+    have h : ∀ i, i < exMixed.nrows → ∀ j, j < exMixed.nrows → yLabel (yCell exMixed "y" i) = yLabel (yCell exMixed "y" j) →
+        cmp (.tuple [yCell exMixed "y" i]) (.tuple [yCell exMixed "y" j]) = .eq := by decide
+    exact h i hi j hj
+  · intro i hi s hs hm
+    simp only [List.mem_singleton] at hm
+    subst hm
+    have h : ∀ i, i < exMixed.nrows → yLabel (yCell exMixed "y" i) ≠ some "a" := by decide
+    exact h i hi hs
+
+/-- the column names of a pivot result (`[]` when it is not a table) -/
+def pivotNames (r : Option (Res VTable)) : List String :=
+  match r with
+  | some (.ok p) => p.map (·.1)
+  | _ => []
+
+def pivotRaises (r : Option (Res VTable)) : Bool :=
+  match r with
+  | some (.error .value) => true
+  | _ => false
+
+#guard pivotNames (exMixed.pivot ["a"] "y" "z" .last) == ["a", "\x00N", "\x00T:63713433600000000", "\x00F:6", "2", "1.5"]
+#guard (match exMixed.pivot ["a"] "y" "z" .last with
+  | some (.ok p) => (match p.unpivot ["a"] "y" "z" with
+       | .ok u => ((uRows u ["a"] "y" "z").filter fun r => !isNoneV r.2.2).length == 5
+       | _ => false)
+  | _ => false)
+
+/-- `1` beside `'1'`: both y values have the column key `'1'` — the rendering is NOT injective on the y values present,
+and `pivot` raises ValueError (`#guard` below: the repaired code; before fix P1 the later column silently replaced the
+earlier one and the row `(0, 1, 10)` was lost); likewise for a y value that is an `x` column name -/
+def exCollide : Table := [("a", [.int 0, .int 1]), ("y", [.int 1, .str "1"]), ("z", [.int 10, .int 20])]
+
+theorem unpivot_pivot_label_collision : ¬ LabelsInjective exCollide "y" := by
+  intro h
+  have := h 0 1 (by decide) (by decide) (by decide)
+  revert this
+  decide
+
+#guard pivotRaises (exCollide.pivot ["a"] "y" "z" .last)
+#guard pivotRaises (Table.pivot [("a", [.int 0, .int 0]), ("y", [.str "a", .str "b"]), ("z", [.int 10, .int 20])] ["a"] "y" "z" .last)
+-- `1` beside `1.0`: ONE y value (`cmp`-equal), one column, named after the group's representative (here the float)
+#guard pivotNames (Table.pivot [("a", [.int 0, .int 1]), ("y", [.int 1, .flt 4]), ("z", [.int 10, .int 20])] ["a"] "y" "z" .last) == ["a", "\x00F:4"]
 
 /-- **unpivot ∘ pivot = identity on the multiset of rows, end to end** under decidable hypotheses:
 a non-empty table with columns `x` (non-empty), `y`, `z` (`x ++ [y, z]` distinct names), unique
@@ -656,9 +825,14 @@ theorem unpivot_pivot_multiset_str (t : Table) (x : List String) (y z : String) 
   have hlab : ∀ i, i < t.nrows → yLabel (yCell t y i) = some (t.jcellAt y i).skey := by
     intro i hi
     obtain ⟨s, hs, _⟩ := hstr i hi
-    simp [yCell, hs, yLabel, Cell.skey]
+    simp [yCell, hs, yLabel, keyName, Cell.skey]
+  have hyk : ∀ i j, i < t.nrows → j < t.nrows →
+      cmp (.tuple [yCell t y i]) (.tuple [yCell t y j]) = .eq → mixedNum (yCell t y i) (yCell t y j) = false := by
+    intro i j hi _ _
+    obtain ⟨s, hs, _⟩ := hstr i hi
+    simp [yCell, hs, mixedNum]
   have h := unpivot_pivot_multiset_canonical t x y z zs p u (fun i => (t.jcellAt y i).skey)
-    hn hx hcols hz hyz huniq hcanon hlab hp hu
+    hn hx hcols hz hyz huniq hcanon hlab hyk hp hu
   rw [tRows_filter]
   refine h.trans (List.Perm.of_eq ?_)
   apply List.map_congr_left
